@@ -27,9 +27,64 @@ type condQ interface {
 	IsClosed() (bool, bool)
 }
 
+// Item identities.  An item is identified by an int64; positive ids are passed as the int64 itself.  The boundary
+// values of an interface{} item - the nil interface, a typed nil pointer, zero values - carry no id of their own, so
+// each of them stands for one reserved negative id and is used at most once per schedule.
+const (
+	idNil      = -1 // interface{}(nil)
+	idNilPtr   = -2 // (*int64)(nil)
+	idEmptyStr = -3 // ""
+	idZeroInt  = -4 // int(0)
+	idFalse    = -5 // false
+	idEmptyS   = -6 // struct{}{}
+)
+
+var specialIDs = []int64{idNil, idNilPtr, idEmptyStr, idZeroInt, idFalse, idEmptyS}
+
+func valOf(id int64) interface{} {
+	switch id {
+	case idNil:
+		return nil
+	case idNilPtr:
+		return (*int64)(nil)
+	case idEmptyStr:
+		return ""
+	case idZeroInt:
+		return int(0)
+	case idFalse:
+		return false
+	case idEmptyS:
+		return struct{}{}
+	}
+	return id
+}
+
 func itemOf(v interface{}) cRes {
-	if x, ok := v.(int64); ok {
-		return cRes{K: 0, X: x}
+	switch x := v.(type) {
+	case nil:
+		return cRes{K: 0, X: idNil}
+	case int64:
+		if x > 0 || x == 0 {
+			return cRes{K: 0, X: x}
+		}
+	case *int64:
+		if x == nil {
+			return cRes{K: 0, X: idNilPtr}
+		}
+	case string:
+		if x == "" {
+			return cRes{K: 0, X: idEmptyStr}
+		}
+	case int:
+		if x == 0 {
+			return cRes{K: 0, X: idZeroInt}
+		}
+	case bool:
+		if !x {
+			return cRes{K: 0, X: idFalse}
+		}
+	case struct{}:
+		return cRes{K: 0, X: idEmptyS}
 	}
 	return cRes{K: 2}
 }
@@ -63,9 +118,9 @@ func (a qQ) Frame() string { return "github.com/pinealctx/neptune/syncx/pipe/q."
 func (a qQ) Call(op int, x int64) cOut {
 	switch op {
 	case lAdd:
-		return addOut(a.q.AddReq(x), q.ErrClosed, q.ErrReqQFull)
+		return addOut(a.q.AddReq(valOf(x)), q.ErrClosed, q.ErrReqQFull)
 	case lAddPrior:
-		return addOut(a.q.AddPriorReq(x), q.ErrClosed, q.ErrReqQFull)
+		return addOut(a.q.AddPriorReq(valOf(x)), q.ErrClosed, q.ErrReqQFull)
 	case lClose:
 		a.q.Close()
 		return cOut{}
@@ -90,9 +145,9 @@ func (a asyncQ) Frame() string { return "github.com/pinealctx/neptune/syncx/pipe
 func (a asyncQ) Call(op int, x int64) cOut {
 	switch op {
 	case lAdd:
-		return addOut(a.q.Add(x), async.ErrClosed, async.ErrFull)
+		return addOut(a.q.Add(valOf(x)), async.ErrClosed, async.ErrFull)
 	case lAddPrior:
-		return addOut(a.q.AddPrior(x), async.ErrClosed, async.ErrFull)
+		return addOut(a.q.AddPrior(valOf(x)), async.ErrClosed, async.ErrFull)
 	case lClose:
 		a.q.Close()
 		return cOut{}
@@ -117,9 +172,9 @@ func (a muxQ) Frame() string { return "github.com/pinealctx/neptune/syncx/pipe/m
 func (a muxQ) Call(op int, x int64) cOut {
 	switch op {
 	case lAdd:
-		return addOut(a.q.AddReq(x), mux.ErrClosed, mux.ErrQFull)
+		return addOut(a.q.AddReq(valOf(x)), mux.ErrClosed, mux.ErrQFull)
 	case lAddPrior:
-		return addOut(a.q.AddPriorReq(x), mux.ErrClosed, mux.ErrQFull)
+		return addOut(a.q.AddPriorReq(valOf(x)), mux.ErrClosed, mux.ErrQFull)
 	case lClose:
 		a.q.Close()
 		return cOut{}
@@ -144,13 +199,13 @@ func (a mqQ) Frame() string { return "github.com/pinealctx/neptune/syncx/pipe/mq
 func (a mqQ) Call(op int, x int64) cOut {
 	switch op {
 	case lAdd:
-		return addOut(a.q.AddReq(x), mq.ErrClosed, mq.ErrReqQFull)
+		return addOut(a.q.AddReq(valOf(x)), mq.ErrClosed, mq.ErrReqQFull)
 	case lAddPrior:
-		return addOut(a.q.AddPriorReq(x), mq.ErrClosed, mq.ErrReqQFull)
+		return addOut(a.q.AddPriorReq(valOf(x)), mq.ErrClosed, mq.ErrReqQFull)
 	case lAddCtrl:
-		return addOut(a.q.AddCtrl(x), mq.ErrClosed, mq.ErrCtrlQFull)
+		return addOut(a.q.AddCtrl(valOf(x)), mq.ErrClosed, mq.ErrCtrlQFull)
 	case lAddPriorCtrl:
-		return addOut(a.q.AddPriorCtrl(x), mq.ErrClosed, mq.ErrCtrlQFull)
+		return addOut(a.q.AddPriorCtrl(valOf(x)), mq.ErrClosed, mq.ErrCtrlQFull)
 	case lClose:
 		a.q.Close()
 		return cOut{}
@@ -177,7 +232,7 @@ func (a syncQ) Frame() string { return "github.com/pinealctx/neptune/queue/syncq
 func (a syncQ) Call(op int, x int64) cOut {
 	switch op {
 	case lAdd:
-		a.q.Push(x)
+		a.q.Push(valOf(x))
 		return cOut{}
 	case lClose:
 		a.q.Close()
@@ -464,5 +519,6 @@ func condDesc(sc *cSchedule, r *cRunResult) map[string]interface{} {
 		}
 	}
 	return map[string]interface{}{"type": sc.Typ, "reqmax": sc.ReqMax, "ctrlmax": sc.CtrlMax, "consumers": sc.NThr,
-		"diverged_from_model": r.diverged, "trace": steps}
+		"diverged_from_model": r.diverged, "trace": steps,
+		"item_ids": "positive = the int64 itself; -1 nil interface, -2 (*int64)(nil), -3 \"\", -4 int(0), -5 false, -6 struct{}{}"}
 }
